@@ -27,6 +27,9 @@ pub struct CompressSpec {
     /// With `force`: the output path already holds this many junk bytes (an older,
     /// possibly larger file that --force-create must replace completely).
     pub preexisting: Option<usize>,
+    /// The temp-file path already holds this many junk bytes (what an earlier failed or
+    /// interrupted compress leaves behind).
+    pub stale_temp: Option<usize>,
     pub metadata_values: Vec<(String, String)>,
     pub metadata_files: Vec<(String, Vec<u8>)>,
 }
@@ -41,6 +44,7 @@ impl CompressSpec {
             stdin: None,
             force: false,
             preexisting: None,
+            stale_temp: None,
             metadata_values: vec![],
             metadata_files: vec![],
         }
